@@ -13,7 +13,7 @@ import (
 
 func init() {
 	register("C30", propMeta{
-		Explanation:  "Decides one clause - that the comparison of two keys depends on those two keys only: (R1) comparer purity: the functions on the comparison path of map-key stores (IndexSpecification.Comparer, JsonDBMapKey.defaultComparer, JsonDBMapKey.proxyComparer) must not store argument-derived values into state that outlives the call (receiver fields, package variables); each such store makes the order of two keys depend on which keys were compared before; (R2) whatever comparer state exists is private to one opened store: JsonDBMapKey.indexSpecification is assigned only the address of a specification decoded into a local of the same function (never a shared / cached object), and package jsondb keeps no package-level container that could share comparer objects between stores. (R3) the comparers an index specification memoises (btree.CoerceComparer's closures, btree.Compare) order missing values consistently (shared with C29.R3).",
+		Explanation:  "Decides one clause - that the comparison of two keys depends on those two keys only: (R1) comparer purity: the functions on the comparison path of map-key stores (IndexSpecification.Comparer, JsonDBMapKey.defaultComparer, JsonDBMapKey.proxyComparer) must not store argument-derived values into state that outlives the call (receiver fields, package variables); each such store makes the order of two keys depend on which keys were compared before; (R2) whatever comparer state exists is private to one opened store: JsonDBMapKey.indexSpecification is assigned only the address of a specification decoded into a local of the same function (never a shared / cached object), and package jsondb keeps no package-level container that could share comparer objects between stores. (R3) the comparers an index specification memoises (btree.CoerceComparer's closures, btree.Compare) order missing values consistently (shared with C29.R3). (R4) the openers of a JSON map-key store install the decoded index specification under the same conditions.",
 		DoesNotCover: "That the resulting relation is a total preorder over mixed-type or missing fields is not decided (value-level).",
 	}, runC30)
 }
